@@ -290,6 +290,9 @@ structure VideoMeta where
   vps : Bytes
   hevcVps : Option HevcVpsInfo
   hevcSps : Option HevcSpsInfo
+  /-- H.264: does `h264.RawSPS.Decode(sps)` succeed?  (an input, like `hevcSps` for H.265, whose
+      `some` says the same of `hevc.H265RawSPS.Decode`) -/
+  avcSpsOk : Bool := false
   deriving Repr, DecidableEq
 
 /-- the metadata before the parameter sets are known (SDP without sprop-parameter-sets) -/
@@ -388,11 +391,13 @@ def audioTag (am : AudioMeta) (f : Frame) : Tag :=
 
 /-! ## muxer.go -/
 
-/-- usable parameter sets: what the decoder configuration record needs -/
+/-- `Muxer.videoMetaReady` — usable parameter sets: what the decoder configuration record needs,
+    and an SPS that has been validated: decoded by the SDP parser / the depacketizer (then the
+    width is known) or decodable now -/
 def videoMetaReady (vm : VideoMeta) : Bool :=
   match vm.codec with
-  | .h265 => !vm.vps.isEmpty && !vm.sps.isEmpty && !vm.pps.isEmpty
-  | _ => decide (vm.sps.length ≥ 4) && !vm.pps.isEmpty
+  | .h265 => !vm.vps.isEmpty && !vm.sps.isEmpty && !vm.pps.isEmpty && (vm.width != 0 || vm.hevcSps.isSome)
+  | _ => decide (vm.sps.length ≥ 4) && !vm.pps.isEmpty && (vm.width != 0 || vm.avcSpsOk)
 
 /-- result of one iteration of the loop of `Muxer.process` -/
 structure StepOut where
